@@ -223,6 +223,22 @@ def seeded_case(flow, cfg, R, n, seed, gen, pm):
         if not close(lp.reshape(-1), direct, 1e-6):
             bad.append(('returned log_prob[i,j] != log_prob(samples[i,j], context[i])', float((lp.reshape(-1) - direct).abs().max())))
         bad += batched_case(flow, n, c, seed, 1)
+        # the SAME context tensor object after the model's parameters moved (an optimiser step, load_state_dict): nothing derived from
+        # the context (its embedding) may be remembered from the earlier call
+        if n in (2, 5):
+            names = {k_ for k_, _ in flow.named_parameters()}
+            flow.load_state_dict({k_: (v_ + 0.05 * torch.randn(v_.shape, generator=gen, dtype=v_.dtype) if k_ in names else v_.clone())
+                                  for k_, v_ in flow.state_dict().items()})      # (load_state_dict: legitimate in evaluation mode, weight caches follow it)
+            torch.manual_seed(seed + 1)
+            s2, lp2 = flow.sample_and_log_prob(n, context=c)
+            d2 = flow.log_prob(s2.reshape(R * n, *ev), context=c.repeat_interleave(n, 0))
+            if not close(lp2.reshape(-1), d2, 1e-6):
+                bad.append(('after a parameter update, sample_and_log_prob(n, same context object) returns log-probs that log_prob does not assign to the samples',
+                            float((lp2.reshape(-1) - d2).abs().max())))
+            torch.manual_seed(seed + 1)
+            s3 = flow.sample(n, context=c)
+            if not close(s3.reshape(-1), s2.reshape(-1)):
+                bad.append(('after a parameter update, sample(n, same context object) and sample_and_log_prob disagree on the draws', 'values'))
     return bad
 
 
@@ -332,6 +348,25 @@ def direct_case(obj, cfg, R, n, seed, gen):
     return None
 
 
+def update_case(obj, cfg, R, n, seed, gen):
+    """two no-grad sampling calls with the SAME context tensor object and a load_state_dict (parameters moved) in between: the second
+    call's log-probs must be what log_prob assigns to its samples"""
+    with torch.no_grad():
+        c = torch.randn(R, cfg.ctxw, generator=gen) * 0.7
+        torch.manual_seed(seed)
+        obj.sample_and_log_prob(n, context=c)
+        names = {k_ for k_, _ in obj.named_parameters()}
+        obj.load_state_dict({k_: (v_ + 0.3 * torch.randn(v_.shape, generator=gen, dtype=v_.dtype) if k_ in names else v_.clone()) for k_, v_ in obj.state_dict().items()})
+        torch.manual_seed(seed + 1)
+        s2, lp2 = obj.sample_and_log_prob(n, context=c)
+        d2 = obj.log_prob(s2.reshape(R * n, *cfg.event), context=c.repeat_interleave(n, 0))
+        res = float((lp2.reshape(-1) - d2).abs().max())
+        if not res <= 1e-6 * (1 + float(d2.abs().max())):
+            return ('after load_state_dict, sample_and_log_prob(%d, the same context tensor) of %s returns log-probs that differ from log_prob(samples, context) by %.3g'
+                    % (n, cfg.name, res), res)
+    return None
+
+
 def block_case(obj, cfg, gen, seed, batch_size=None):
     """sample(n, context): block i must come from the density conditioned on context row i — the average log-density of
     block i under its own context row must beat the one under any other (well separated) context row"""
@@ -412,6 +447,15 @@ def search(ctx):
                     if r is not None and (cfg.name, 'direct') not in seen:
                         seen.add((cfg.name, 'direct'))
                         ctx.fail(r[0], case, detail={'residual': r[1]}, match={'class': cfg.name.split('[')[0], 'symptom': 'logprob-mismatch'})
+            if cfg.supports_ctx and cfg.model['k'] == 'Flow' and (cfg.name, 'update') not in seen:
+                case = {'cfg': cfg.name, 'R': 2, 'n': 3, 'seed': ctx.seed, 'oracle': 'update'}
+                try:
+                    r = update_case(cfg.build().eval(), cfg, 2, 3, ctx.seed, gen)
+                except Exception as e:
+                    r = None
+                if r is not None:
+                    seen.add((cfg.name, 'update'))
+                    ctx.fail(r[0], case, detail={'residual': r[1]}, match={'class': cfg.name.split('[')[0], 'symptom': 'stale-after-update'})
             if cfg.supports_ctx and cfg.ctx_dependent:
                 case = {'cfg': cfg.name, 'seed': ctx.seed, 'oracle': 'block'}
                 try:
@@ -453,6 +497,8 @@ def replay(ctx, payload):
                     return direct_case(obj, cfg, case['R'], case['n'], case['seed'], gen) is not None
                 if case.get('oracle') == 'block':
                     return block_case(obj, cfg, gen, case['seed'], batch_size=case.get('batch_size')) is not None
+                if case.get('oracle') == 'update':
+                    return update_case(obj, cfg, case['R'], case['n'], case['seed'], gen) is not None
                 if case.get('oracle') == 'ks':
                     return ks_case(obj, cfg, gen, case['seed']) is not None
             except Exception:
